@@ -223,6 +223,8 @@ def aggregate(pid, tier, seed, mod, cases, metas, tails, problems, extra_info, t
     # replays
     viol_lines = []
     rdir = os.path.join(VERIF, 'replays', pid)
+    if repo_root() != '/repo':
+        rdir = os.path.join(VERIF, '.build', 'replays_trial', pid)
     if per_mech:
         os.makedirs(rdir, exist_ok=True)
     for key, (v, r) in list(per_mech.items())[:12]:
@@ -262,8 +264,13 @@ def aggregate(pid, tier, seed, mod, cases, metas, tails, problems, extra_info, t
         'wall_s': round(wall, 2),
         'violations': len(per_mech),
     }
-    os.makedirs(os.path.join(VERIF, 'evidence'), exist_ok=True)
-    with open(os.path.join(VERIF, 'evidence', pid + '.json'), 'w') as f:
+    evdir = os.path.join(VERIF, 'evidence')
+    if repo_root() != '/repo':
+        # deliberate-break trial against a scratch worktree: never overwrite the real evidence
+        evdir = os.path.join(VERIF, '.build', 'evidence_trial')
+        ev['coverage']['repo_under_test'] = repo_root()
+    os.makedirs(evdir, exist_ok=True)
+    with open(os.path.join(evdir, pid + '.json'), 'w') as f:
         json.dump(ev, f, indent=1, sort_keys=False)
 
     print(f'[{pid}] tier={tier} seed={seed} cases={evaluations} nontrivial={len(digests)} '
